@@ -29,7 +29,9 @@ theorem pySortInt_keyed (feat : α → Int) (l : List α) :
   unfold pySortInt
   rw [← List.map_mergeSort (r := fun a b => decide (feat a ≤ feat b)) (f := fun x => (feat x, x))
     (fun a _ b _ => rfl)]
-  simp
+  rw [List.map_map]
+  have : ((fun (x : Int × α) => x.2) ∘ fun x => (feat x, x)) = id := rfl
+  rw [this, List.map_id]
 
 theorem tie_Archive_truncate (feat : α → Int) (contents : List α) (size : Nat) (larger : Bool) :
     Archive_truncate feat contents size larger = some (truncate feat contents size larger) := by
